@@ -233,6 +233,24 @@ class Composite(behaviour.Behaviour, abc.ABC):
         Args:
             children ([:class:`~py_trees.behaviour.Behaviour`]): list of children to add
         """
+        # validate every child first so that a rejected call adds nothing
+        for index, child in enumerate(children):
+            if not isinstance(child, behaviour.Behaviour):
+                raise TypeError(
+                    "children must be behaviours, but you passed in {}".format(
+                        type(child)
+                    )
+                )
+            if child.parent is not None:
+                raise RuntimeError(
+                    "behaviour '{}' already has parent '{}'".format(
+                        child.name, child.parent.name
+                    )
+                )
+            if any(child is other for other in children[:index]):
+                raise RuntimeError(
+                    "behaviour '{}' is listed more than once".format(child.name)
+                )
         for child in children:
             self.add_child(child)
         return self
@@ -249,11 +267,12 @@ class Composite(behaviour.Behaviour, abc.ABC):
 
         .. todo:: Error handling for when child is not in this list
         """
+        # raises ValueError for a behaviour that is not a child, before anything is changed
+        child_index = self.children.index(child)
         if self.current_child is not None and (self.current_child.id == child.id):
             self.current_child = None
         if child.status == common.Status.RUNNING:
             child.stop(common.Status.INVALID)
-        child_index = self.children.index(child)
         self.children.remove(child)
         child.parent = None
         return child_index
